@@ -62,14 +62,19 @@ Definition schema_wf (s : schema) : Prop :=
 Definition ity_nullable (t : ity) : ity :=
   match t with INamed _ n => INamed false n | IList _ t' => IList false t' end.
 
+(* literals that take the "single value in a list position" path of
+   value_from_ast: neither a variable, nor null, nor a list *)
+Definition literal_plain (l : value) : bool :=
+  match l with VVar _ _ | VNull _ | VList _ _ => false | _ => true end.
+
 (* variable x occurs in literal l, written for type t, at a position whose
    declared type is tp *)
 Inductive var_at (s : schema) : ity -> value -> str -> ity -> Prop :=
 | VA_here t x lc : var_at s t (VVar x lc) (n_val x) t
 | VA_item nn t items lc i x tp :
     In i items -> var_at s t i x tp -> var_at s (IList nn t) (VList items lc) x tp
-| VA_single nn t l x tp :
-    var_at s t l x tp -> var_at s (IList nn t) l x tp
+| VA_single nn t l x tp :              (* e.g. an object literal where a list is expected *)
+    literal_plain l = true -> var_at s t l x tp -> var_at s (IList nn t) l x tp
 | VA_field nn n fs lfs lc nm v lc' f x tp :
     alookup n s = Some (TDInput fs) -> In (nm, v, lc') lfs -> In f fs -> f_name f = n_val nm ->
     var_at s (f_ty f) v x tp -> var_at s (INamed nn n) (VObject lfs lc) x tp.
@@ -234,9 +239,6 @@ Definition lit_pairs (lfs : list (name * value * loc)) : list (str * value) :=
 (* the field of an object literal that counts: the last one of that name *)
 Definition lit_field (lfs : list (name * value * loc)) (k : str) : option value :=
   alookup_last k (lit_pairs lfs).
-
-Definition literal_plain (l : value) : bool :=
-  match l with VVar _ _ | VNull _ | VList _ _ => false | _ => true end.
 
 Inductive wrong_lit (s : schema) : ity -> value -> Prop :=
 | WL_null t lc : ity_nn t = true -> wrong_lit s t (VNull lc)
